@@ -292,7 +292,9 @@ CLAIMED["C02"] = {
             "slewTarget of the estimate (steer_slews_to_target); outside the dead zone the slew target has the sign opposite to the "
             "estimated offset, for every arithmetic with the IEEE sign rule (steering_opposes_offset); the noise estimator adds a sample "
             "only for a Sync / Delay pair whose event times differ by less than estimate_threshold in absolute value "
-            "(noise_sample_needs_close_pair_sync / _delay).",
+            "(noise_sample_needs_close_pair_sync / _delay); the estimator's three measurement rows (Sync = offset + delay, Delay_Resp = offset - delay, "
+            "peer delay = delay) are those extracted from kalman.rs on this run and each absorb function uses its own (measurement_rows_match_source). "
+            "One closed-loop scenario in five uses the peer-to-peer mechanism.",
     "note": "Trusted: Lean kernel; the closed-loop simulators (harness/src/streams/gen_loop.rs, portloop.rs: clock model, path model, event queue); "
             "generators; the calibration of bound and deadline. The convergence verdict is bounded simulation, not proof.",
     "technique": "Lean 4 theorems for the control law's structure + bit-exact differential correspondence of the servo on closed-loop histories + closed-loop simulation oracle (sampling) for convergence",
